@@ -158,6 +158,24 @@ def check_batch(o):
             r = _check_stats(sm, o["stats"], o["queries"], tag, 1e-9, nv, c["E"])
             if r:
                 bad.append((r, {"edges": c["E"], "mode": c["mode"], "bias": c["bias"]}, None))
+            # ... and on training shapes whose coordinates are stored as whole numbers (pixel annotations): same model, and a mean
+            # that is the sample mean, not its integer part
+            if np.array_equal(data, np.round(data)):
+                from menpo.shape import PointCloud
+
+                ishapes = [PointCloud(np.asarray(r_, dtype=np.int64).reshape(-1, 1)) for r_ in data]
+                tag = "GMRFModel on integer-typed shapes, %s graph, %s storage" % (gname, "sparse" if sparse else "dense")
+                try:
+                    smi = _ShapeModel(GMRFModel(ishapes, g, mode=c["mode"], sparse=sparse, bias=c["bias"]))
+                    r = _check_stats(smi, o["stats"], o["queries"], tag, 1e-9, nv, c["E"])
+                except Exception as e:
+                    from ..core import from_library
+
+                    if not from_library(e):
+                        raise
+                    r = tag + ": raised %s: %s" % (type(e).__name__, str(e)[:100])
+                if r:
+                    bad.append((r, {"edges": c["E"], "mode": c["mode"], "bias": c["bias"]}, None))
     return bad
 
 
